@@ -180,11 +180,17 @@ fn degree() -> impl Strategy<Value = usize> {
     prop_oneof![3 => 1usize..=1, 6 => 2usize..=8, 3 => 9usize..=40, 2 => 41usize..=200]
 }
 
+/// degree of the check processed by the layered update: mostly 2..=12, one in ten up to 70, one in
+/// twenty up to 200 (beyond any batch or lane width)
+fn row_degree() -> impl Strategy<Value = usize> {
+    prop_oneof![17 => 2usize..=12, 2 => 13usize..=70, 1 => 71usize..=200]
+}
+
 pub fn i8_strategy(_t: Tier) -> BoxedStrategy<I8Case> {
     (
         i8val(),
         degree().prop_flat_map(i8vec),
-        (2usize..=12).prop_flat_map(|dd| proptest::collection::vec((i8val(), degree().prop_flat_map(i8vec)), dd)),
+        row_degree().prop_flat_map(|dd| proptest::collection::vec((i8val(), degree().prop_flat_map(i8vec)), dd)),
     )
         .prop_map(|(input, msgs, row)| I8Case { input, msgs, row })
         .boxed()
@@ -371,7 +377,7 @@ fn fval(range: f64) -> impl Strategy<Value = f64> {
 }
 
 pub fn f_strategy(_t: Tier) -> BoxedStrategy<FCase> {
-    (fval(20.0), degree().prop_flat_map(|d| proptest::collection::vec(fval(20.0), d)), (2usize..=12).prop_flat_map(|dd| (proptest::collection::vec(fval(12.0), dd), proptest::collection::vec(fval(30.0), dd))))
+    (fval(20.0), degree().prop_flat_map(|d| proptest::collection::vec(fval(20.0), d)), row_degree().prop_flat_map(|dd| (proptest::collection::vec(fval(12.0), dd), proptest::collection::vec(fval(30.0), dd))))
         .prop_map(|(input, msgs, (olds, vars))| FCase { input: Fx(input), msgs: msgs.into_iter().map(Fx).collect(), olds: olds.into_iter().map(Fx).collect(), vars: vars.into_iter().map(Fx).collect() })
         .boxed()
 }
@@ -489,7 +495,7 @@ pub fn property() -> Property {
             }),
             Box::new(Sub {
                 name: "i8-rules",
-                rule: "the sixteen 8-bit types: (a) variable rule with degree 1..=200 (weighted 1 / 2-8 / 9-40 / 41-200), incoming messages in [-127,127] (uniform, all +127, all -127, mixed +-127, small), channel value incl. +-116/117/127, against exact i64 arithmetic with Jones clipping and degree-one clipping applied exactly where the type name says; (b) layered primitive on rows of degree 2..=12 (after an unrelated, usually larger row was processed by the same arithmetic object) whose variable LLRs are built as channel + sum of 1..=200 messages (reachable envelope by construction), against the type's own flooding check rule on the clipped extrinsics + add, other variables untouched; exact equality; non-trivial = a saturation/clipping branch taken (|total| > 127, degree-one clip, |extrinsic| > 127)",
+                rule: "the sixteen 8-bit types: (a) variable rule with degree 1..=200 (weighted 1 / 2-8 / 9-40 / 41-200), incoming messages in [-127,127] (uniform, all +127, all -127, mixed +-127, small), channel value incl. +-116/117/127, against exact i64 arithmetic with Jones clipping and degree-one clipping applied exactly where the type name says; (b) layered primitive on rows of degree 2..=12 (one in ten 13..=70, one in twenty 71..=200; after an unrelated, usually larger row was processed by the same arithmetic object) whose variable LLRs are built as channel + sum of 1..=200 messages (reachable envelope by construction), against the type's own flooding check rule on the clipped extrinsics + add, other variables untouched; exact equality; non-trivial = a saturation/clipping branch taken (|total| > 127, degree-one clip, |extrinsic| > 127)",
                 cases: |t| t.pick(300_000, 10_000_000),
                 strategy: i8_strategy,
                 check: check_i8,
@@ -497,7 +503,7 @@ pub fn property() -> Property {
             }),
             Box::new(Sub {
                 name: "float-rules",
-                rule: "the eight float types: variable rule (degree 1..=200, finite values up to +-200) within 16*eps*(d+1)*sum|terms| of the f64 sums; layered primitive on rows of degree 2..=12 equals the flooding check rule on the extrinsic values + add within 16*eps*scale; non-trivial = degree >= 2",
+                rule: "the eight float types: variable rule (degree 1..=200, finite values up to +-200) within 16*eps*(d+1)*sum|terms| of the f64 sums; layered primitive on rows of degree 2..=12 (one in ten 13..=70, one in twenty 71..=200) equals the flooding check rule on the extrinsic values + add within 16*eps*scale; non-trivial = degree >= 2",
                 cases: |t| t.pick(300_000, 10_000_000),
                 strategy: f_strategy,
                 check: check_f,
